@@ -164,7 +164,13 @@ fn construct(rng: &mut Rng, name: &str, m: &BTreeMap<String, Val>, order: &[Stri
 }
 
 pub fn build(aux: &J) -> W3Prog {
+    if let (Some(h), Some(ph)) = (aux.get("model_stdout_hex").and_then(J::as_str), aux.get("model_program_hex").and_then(J::as_str)) {
+        if let (Some(out), Some(text)) = (crate::plan::unhex(h), crate::plan::unhex(ph)) {
+            return W3Prog { text, stdout: out, nkeys: aux.get("model_nkeys").and_then(J::as_u64).unwrap_or(2) as usize, routes: vec![], observations: vec![] };
+        }
+    }
     let seed = aux.get("w3_seed").and_then(J::as_u64).unwrap_or(1);
+    let aliased = aux.get("aliased").and_then(J::as_bool).unwrap_or(true);
     let mut rng = Rng::new(seed);
     let nobj = 1 + rng.usize_below(3);
     let mut text = String::new();
@@ -255,6 +261,23 @@ pub fn build(aux: &J) -> W3Prog {
             expect.push('\n');
             observations.push("print-nested".into());
         }
+        // the same container reached twice inside one printed value (aliasing is invisible to print)
+        if aliased && rng.chance(1, 3) {
+            text.push_str(&format!("print([{a}, {a}, {b}])\n"));
+            expect.push_str(&render(&Val::List(vec![mv.clone(), mv.clone(), mv.clone()])));
+            expect.push('\n');
+            observations.push("print-aliased".into());
+        }
+        if aliased && rng.chance(1, 4) {
+            text.push_str(&format!("sh{oi} := [{a}]\nprint({{\"x\": sh{oi}, \"y\": sh{oi}, \"z\": [{b}]}})\n"));
+            let mut o = BTreeMap::new();
+            o.insert("x".to_string(), Val::List(vec![mv.clone()]));
+            o.insert("y".to_string(), Val::List(vec![mv.clone()]));
+            o.insert("z".to_string(), Val::List(vec![mv.clone()]));
+            expect.push_str(&render(&Val::Obj(o)));
+            expect.push('\n');
+            observations.push("print-aliased".into());
+        }
         if let Some(k) = keys.first() {
             if rng.chance(1, 2) {
                 text.push_str(&format!("print({b}[{}])\n", lit_str(k)));
@@ -265,6 +288,12 @@ pub fn build(aux: &J) -> W3Prog {
         }
     }
     W3Prog { text: text.into_bytes(), stdout: expect.into_bytes(), nkeys: maxkeys, routes, observations }
+}
+
+pub fn pick_opts(rng: &mut Rng, aliased: bool) -> Picked {
+    let aux = json!({"w3_seed": rng.next_u64() >> 1, "aliased": aliased});
+    let p = build(&aux);
+    Picked { label: format!("W3:{}", aux["w3_seed"]), program: p.text, aux }
 }
 
 pub fn pick(rng: &mut Rng) -> Picked {
